@@ -5,6 +5,16 @@ import Mathlib.Data.List.Perm.Basic
 import Mathlib.Tactic.Ring
 import Mathlib.Data.Fintype.Fin
 import Mathlib.Data.List.OfFn
+import Mathlib.Data.Fin.Tuple.Sort
+import Mathlib.Tactic.Choose
+import Mathlib.Algebra.BigOperators.Group.Finset.Piecewise
+import Mathlib.Algebra.BigOperators.Fin
+import Mathlib.Algebra.Order.BigOperators.Group.Finset
+import Mathlib.Algebra.Group.Fin.Basic
+import Mathlib.Algebra.Group.Units.Equiv
+import Pun.Lemmas.PBoxNum
+import Pun.Lemmas.EnvImp
+import Pun.Lemmas.Hull
 /-!
 # Frechet arithmetic at the level of the public methods: sign routing, tightness, enclosure
 
@@ -20,7 +30,18 @@ import Mathlib.Data.List.OfFn
 * `good_frechet` — the base case: `classicFrechet` for an operation monotone in both arguments;
   `good_mul_nonneg` — the product of non-negative operands;
 * `mul_f_onesign_good` — the public `mul(…,'f')` on operands of one sign each, all four sign
-  combinations, through `negativeFrechet`.
+  combinations, through `negativeFrechet`;
+* order statistics (`sorted_getElem_le_iff`, `sortR_forall₂`, `countP_ofFn`, `Valid.encloses_sorted`), the
+  constructor on sorted pairs / on the `n²` values of the independent rule (`mk_sorted_ok`, `mk_indep_ok`);
+* `AllValid` (validity alone) with `AllValid.comp` — validity composes: valid outcome families of two
+  boxes combine to a valid outcome family of any box that is valid for the operation under all couplings
+  (sort both families; `Tuple.sort`); `Sel.valid`, `Valid.sel_of_monotone`, `Valid.imp`, `Valid.add_const`;
+* the zero-straddling product: `naive_allValid`, `naive_mk_ok`, `balchprod_allValid`,
+  `straddleFrechet_allValid`, `straddleFrechet_total`, **`mul_f_allValid`, `mul_f_total`** (every
+  well-formed pair of operands) — reusing `Pun.EnvImp.imp_ok/imp_err` and `Pun.PBox.Num.numberOp_mono/anti`;
+* enclosure of the other dependencies for ANY operation and ANY operands: `corner_counts`,
+  `allValid_encloses_paired`, `perfect_enclosed`, `opposite_enclosed`, `independent_enclosed` (double
+  counting over the cyclic shifts, `sum_card_rows_le_shifts`).
 -/
 set_option linter.unusedSimpArgs false
 set_option linter.unusedVariables false
@@ -1483,5 +1504,1004 @@ theorem independentOp_mul_eq (X Y : PB) (pX : NonNeg X) (pY : NonNeg Y) :
     exact (mulPos_eq x y (ha x hx) (hb y hy)).symm
   unfold independentOp cornersSorted
   rw [e _ _ pX.1 pY.1, e _ _ pX.1 pY.2, e _ _ pX.2 pY.1, e _ _ pX.2 pY.2]
+
+/-! ## validity alone (no tightness): transport, composition -/
+
+/-- `R` bounds `op X Y` under every dependence: validity for every selection and every coupling -/
+def AllValid (n : Nat) (op : Rat → Rat → Rat) (X Y R : PB) (hX : WFS n X) (hY : WFS n Y) : Prop :=
+  ∀ x y : Fin n → Rat, Sel n X hX x → Sel n Y hY y → ∀ σ : Equiv.Perm (Fin n),
+    Valid n R (fun m => op (x m) (y (σ m)))
+
+theorem Good.allValid {n : Nat} {op : Rat → Rat → Rat} {X Y R : PB} {hX : WFS n X} {hY : WFS n Y}
+    (g : Good n op X Y R hX hY) : AllValid n op X Y R hX hY := g.valid
+
+theorem AllValid.congr_sel {n : Nat} {op op' : Rat → Rat → Rat} {X Y R : PB} {hX : WFS n X} {hY : WFS n Y}
+    (g : AllValid n op X Y R hX hY)
+    (h : ∀ x y : Fin n → Rat, Sel n X hX x → Sel n Y hY y → ∀ m k, op (x m) (y k) = op' (x m) (y k)) :
+    AllValid n op' X Y R hX hY := by
+  intro x y hx hy σ
+  have e : (fun m => op' (x m) (y (σ m))) = (fun m => op (x m) (y (σ m))) := by
+    funext m; exact (h x y hx hy m (σ m)).symm
+  rw [e]; exact g x y hx hy σ
+
+theorem AllValid.congr {n : Nat} {op op' : Rat → Rat → Rat} {X Y R : PB} {hX : WFS n X} {hY : WFS n Y}
+    (g : AllValid n op X Y R hX hY) (h : ∀ a b, op a b = op' a b) : AllValid n op' X Y R hX hY :=
+  g.congr_sel (fun _ _ _ _ _ _ => h _ _)
+
+theorem AllValid.flipY {n : Nat} {op : Rat → Rat → Rat} {X Y R : PB} {hX : WFS n X}
+    (φ : Rat → Rat) (S : Rat → Prop) (h : AntiInv φ S) (hY : WFS n Y) (hS : InS S Y)
+    (hY' : WFS n (flipB φ Y)) (g : AllValid n op X (flipB φ Y) R hX hY') :
+    AllValid n (fun a b => op a (φ b)) X Y R hX hY := by
+  intro x y hx hy σ
+  have key := g x (fun m => φ (y (Fin.rev m))) hx (sel_flipB φ S h n Y hY hS hY' y hy)
+    (σ.trans Fin.revPerm)
+  simp only [Equiv.trans_apply, Fin.revPerm_apply, Fin.rev_rev] at key
+  exact key
+
+/-- the operands exchanged (couplings `σ ↦ σ⁻¹`, outcomes re-indexed by `σ`) -/
+theorem AllValid.swap {n : Nat} {op : Rat → Rat → Rat} {X Y R : PB} {hX : WFS n X} {hY : WFS n Y}
+    (g : AllValid n op Y X R hY hX) : AllValid n (fun a b => op b a) X Y R hX hY := by
+  intro x y hx hy σ
+  have key := (g y x hy hx σ.symm).reindex σ
+  simp only [Equiv.symm_apply_apply] at key
+  exact key
+
+/-- a selection (in step order) is a valid outcome family -/
+theorem Sel.valid {n : Nat} {P : PB} (hP : WFS n P) (w : Fin n → Rat) (h : Sel n P hP w) : Valid n P w := by
+  intro i l r hl hr
+  have hi := i.isLt
+  have hll := hP.llen; have hrl := hP.rlen
+  rw [List.getElem?_eq_getElem (by omega)] at hl hr
+  have el := Option.some.inj hl
+  have er := Option.some.inj hr
+  subst el er
+  constructor
+  · have hsub : (univ.filter (fun m : Fin n => w m < P.left[i.val])) ⊆ Finset.Iio i := by
+      intro m hm
+      rw [Finset.mem_filter] at hm
+      rw [Finset.mem_Iio]
+      by_contra hge
+      rw [not_lt] at hge
+      have h1 := (h m).1
+      have h2 := sorted_get_le P.left hP.lsorted i.val m.val (by omega) (by have := m.isLt; omega) hge
+      exact absurd hm.2 (not_lt.mpr (le_trans h2 h1))
+    calc _ ≤ (Finset.Iio i).card := card_le_card hsub
+      _ = i.val := Fin.card_Iio i
+  · have hsub : (univ.filter (fun m : Fin n => P.right[i.val] < w m)) ⊆ Finset.Ioi i := by
+      intro m hm
+      rw [Finset.mem_filter] at hm
+      rw [Finset.mem_Ioi]
+      by_contra hge
+      rw [not_lt] at hge
+      have h1 := (h m).2
+      have h2 := sorted_get_le P.right hP.rsorted m.val i.val (by have := m.isLt; omega) (by omega) hge
+      exact absurd hm.2 (not_lt.mpr (le_trans h1 h2))
+    calc _ ≤ (Finset.Ioi i).card := card_le_card hsub
+      _ = n - 1 - i.val := Fin.card_Ioi i
+
+/-- a monotone valid outcome family is a selection -/
+theorem Valid.sel_of_monotone {n : Nat} {P : PB} (hP : WFS n P) (w : Fin n → Rat) (hw : Monotone w)
+    (h : Valid n P w) : Sel n P hP w := by
+  intro m
+  have hm := m.isLt
+  have hll := hP.llen; have hrl := hP.rlen
+  obtain ⟨v1, v2⟩ := h m (P.left[m.val]'(by omega)) (P.right[m.val]'(by omega))
+    (List.getElem?_eq_getElem (by omega)) (List.getElem?_eq_getElem (by omega))
+  constructor
+  · by_contra hlt
+    rw [not_le] at hlt
+    have hsub : Finset.Iic m ⊆ (univ.filter (fun j : Fin n => w j < P.left[m.val])) := by
+      intro j hj
+      rw [Finset.mem_Iic] at hj
+      rw [Finset.mem_filter]
+      exact ⟨mem_univ _, lt_of_le_of_lt (hw hj) hlt⟩
+    have := card_le_card hsub
+    rw [Fin.card_Iic] at this
+    omega
+  · by_contra hlt
+    rw [not_le] at hlt
+    have hsub : Finset.Ici m ⊆ (univ.filter (fun j : Fin n => P.right[m.val] < w j)) := by
+      intro j hj
+      rw [Finset.mem_Ici] at hj
+      rw [Finset.mem_filter]
+      exact ⟨mem_univ _, lt_of_lt_of_le hlt (hw hj)⟩
+    have := card_le_card hsub
+    rw [Fin.card_Ici] at this
+    omega
+
+/-- **validity composes**: if the family `u` is valid for `P`, the family `v` (same index set) is
+valid for `Q`, and `R` is valid for `op P Q` under every coupling, then `op u v` is valid for `R` —
+sort both families, they become selections, and the index correspondence becomes a coupling -/
+theorem AllValid.comp {n : Nat} {op : Rat → Rat → Rat} {P Q R : PB} {hP : WFS n P} {hQ : WFS n Q}
+    (h : AllValid n op P Q R hP hQ) (u v : Fin n → Rat) (hu : Valid n P u) (hv : Valid n Q v) :
+    Valid n R (fun m => op (u m) (v m)) := by
+  have su := Valid.sel_of_monotone hP (fun m => u (Tuple.sort u m)) (Tuple.monotone_sort u)
+    (hu.reindex (Tuple.sort u))
+  have sv := Valid.sel_of_monotone hQ (fun m => v (Tuple.sort v m)) (Tuple.monotone_sort v)
+    (hv.reindex (Tuple.sort v))
+  have key := (h _ _ su sv ((Tuple.sort u).trans (Tuple.sort v).symm)).reindex (Tuple.sort u).symm
+  simp only [Equiv.trans_apply, Equiv.apply_symm_apply] at key
+  exact key
+
+/-! ### images of a p-box under `· + c` (monotone) and `· * c`, `c < 0` (antitone) -/
+
+/-- image of a p-box under an order-preserving map -/
+def mapB (g : Rat → Rat) (p : PB) : PB := ⟨p.left.map g, p.right.map g⟩
+
+theorem wf_num (n : Nat) (P : PB) (h : WF n P) : Num.WF n P :=
+  ⟨h.llen, h.rlen, h.lsorted, h.rsorted, forall₂_of_wf n P h⟩
+
+theorem wf_envImp (n : Nat) (P : PB) (h : WF n P) : EnvImp.WF n P :=
+  ⟨h.llen, h.rlen, h.lsorted, h.rsorted, forall₂_of_wf n P h⟩
+
+theorem wf_of_num (n : Nat) (P : PB) (h : Num.WF n P) : WF n P :=
+  ⟨⟨h.lenL, h.lenR, h.sortedL, h.sortedR⟩, fun i hi => forall₂_getElem _ _ h.le i (by rw [h.lenL]; exact hi)⟩
+
+/-- `P + c`, `P - c` (`pbox_number_ops`): every bound shifted -/
+theorem numberOp_shift (n : Nat) (f : Rat → Rat → Rat) (c : Rat) (P : PB) (h : WF n P)
+    (hf : ∀ x y, x ≤ y → f x c ≤ f y c) :
+    numberOp n f P c = .ok (mapB (f · c) P) ∧ WF n (mapB (f · c) P) :=
+  ⟨Num.numberOp_mono n f P c (wf_num n P h) (fun _ => True) (fun _ _ => trivial) (fun _ _ => trivial)
+      (fun x y _ _ hxy => hf x y hxy),
+    wf_of_num n _ (Num.wf_map_mono n P (wf_num n P h) (f · c) (fun _ => True) (fun _ _ => trivial)
+      (fun _ _ => trivial) (fun x y _ _ hxy => hf x y hxy))⟩
+
+/-- `P * c` for an order-reversing constant: bounds exchanged and reversed -/
+theorem numberOp_flip (n : Nat) (f : Rat → Rat → Rat) (c : Rat) (P : PB) (h : WF n P)
+    (hf : ∀ x y, x ≤ y → f y c ≤ f x c) :
+    numberOp n f P c = .ok (flipB (f · c) P) ∧ WF n (flipB (f · c) P) :=
+  ⟨Num.numberOp_anti n f P c (wf_num n P h) (fun _ => True) (fun _ _ => trivial) (fun _ _ => trivial)
+      (fun x y _ _ hxy => hf x y hxy),
+    wf_of_num n _ (Num.wf_map_anti n P (wf_num n P h) (f · c) (fun _ => True) (fun _ _ => trivial)
+      (fun _ _ => trivial) (fun x y _ _ hxy => hf x y hxy))⟩
+
+theorem sel_mapB (g : Rat → Rat) (hg : ∀ x y, x ≤ y → g x ≤ g y) (n : Nat) (P : PB) (hP : WFS n P)
+    (hw : WFS n (mapB g P)) (w : Fin n → Rat) (h : Sel n P hP w) : Sel n (mapB g P) hw (fun m => g (w m)) := by
+  intro m
+  simp only [mapB, List.getElem_map]
+  exact ⟨hg _ _ (h m).1, hg _ _ (h m).2⟩
+
+/-- the image of a selection under an antitone map is a valid family of the flipped p-box -/
+theorem valid_flipB (φ : Rat → Rat) (hφ : ∀ x y, x ≤ y → φ y ≤ φ x) (n : Nat) (P : PB) (hP : WFS n P)
+    (hw : WFS n (flipB φ P)) (w : Fin n → Rat) (h : Sel n P hP w) : Valid n (flipB φ P) (fun m => φ (w m)) := by
+  have hs : Sel n (flipB φ P) hw (fun m => φ (w (Fin.rev m))) := by
+    intro m
+    have hm := m.isLt
+    have hl := hP.llen; have hr := hP.rlen
+    have e1 := flipB_left_get φ P n hP.rlen m.val hm
+    have e2 := flipB_right_get φ P n hP.llen m.val hm
+    have l1 : m.val < (flipB φ P).left.length := by rw [hw.llen]; exact hm
+    have l2 : m.val < (flipB φ P).right.length := by rw [hw.rlen]; exact hm
+    rw [List.getElem?_eq_getElem l1] at e1
+    rw [List.getElem?_eq_getElem l2] at e2
+    rw [Option.some.inj e1, Option.some.inj e2]
+    have hy' := h (Fin.rev m)
+    have ea : P.left[(Fin.rev m).val]'(by simp only [Fin.val_rev]; omega) = P.left[n - 1 - m.val]'(by omega) := by
+      congr 1; simp only [Fin.val_rev]; omega
+    have eb : P.right[(Fin.rev m).val]'(by simp only [Fin.val_rev]; omega) = P.right[n - 1 - m.val]'(by omega) := by
+      congr 1; simp only [Fin.val_rev]; omega
+    rw [ea, eb] at hy'
+    exact ⟨hφ _ _ hy'.2, hφ _ _ hy'.1⟩
+  have key := (Sel.valid hw _ hs).reindex Fin.revPerm
+  simp only [Fin.revPerm_apply, Fin.rev_rev] at key
+  exact key
+
+/-- shifting every bound and every outcome by the same constant keeps validity -/
+theorem Valid.add_const {n : Nat} {R : PB} {z : Fin n → Rat} (h : Valid n R z) (c : Rat) :
+    Valid n (mapB (· + c) R) (fun m => z m + c) := by
+  intro i l r hl hr
+  simp only [mapB, List.getElem?_map, Option.map_eq_some_iff] at hl hr
+  obtain ⟨l0, hl0, rfl⟩ := hl
+  obtain ⟨r0, hr0, rfl⟩ := hr
+  have := h i l0 r0 hl0 hr0
+  simpa using this
+
+/-- the entrywise intersection of two valid boxes is valid -/
+theorem Valid.imp {n : Nat} {P Q : PB} {z : Fin n → Rat} (hP : Valid n P z) (hQ : Valid n Q z) :
+    Valid n (EnvImp.impSpec P Q) z := by
+  intro i l r hl hr
+  simp only [EnvImp.impSpec, List.getElem?_zipWith] at hl hr
+  cases h1 : P.left[i.val]? with
+  | none => simp [h1] at hl
+  | some l1 =>
+  cases h2 : Q.left[i.val]? with
+  | none => simp [h1, h2] at hl
+  | some l2 =>
+  cases h3 : P.right[i.val]? with
+  | none => simp [h3] at hr
+  | some r1 =>
+  cases h4 : Q.right[i.val]? with
+  | none => simp [h3, h4] at hr
+  | some r2 =>
+    simp only [h1, h2, h3, h4, Option.some.injEq] at hl hr
+    subst hl hr
+    obtain ⟨a1, a2⟩ := hP i l1 r1 h1 h3
+    obtain ⟨b1, b2⟩ := hQ i l2 r2 h2 h4
+    constructor
+    · rcases max_choice l1 l2 with e | e <;> rw [e] <;> assumption
+    · rcases min_choice r1 r2 with e | e <;> rw [e] <;> assumption
+
+/-! ## the naive rule (`new_vectorised_naive_frechet_op`): valid for every coupling -/
+
+theorem zip4_length (f : Rat → Rat → Rat → Rat → Rat) (a b c d : List Rat) (n : Nat)
+    (ha : a.length = n) (hb : b.length = n) (hc : c.length = n) (hd : d.length = n) :
+    (zip4 f a b c d).length = n := by
+  induction a generalizing b c d n with
+  | nil => simp at ha; subst ha; simp [zip4]
+  | cons x t ih =>
+    cases b with
+    | nil => simp at hb; subst hb; simp at ha
+    | cons x2 t2 =>
+    cases c with
+    | nil => simp at hc; subst hc; simp at ha
+    | cons x3 t3 =>
+    cases d with
+    | nil => simp at hd; subst hd; simp at ha
+    | cons x4 t4 =>
+      cases n with
+      | zero => simp at ha
+      | succ k =>
+        simp only [zip4, List.length_cons, Nat.add_right_cancel_iff] at *
+        exact ih t2 t3 t4 k ha hb hc hd
+
+theorem min4_le_max4 (a b c d : Rat) : min4 a b c d ≤ max4 a b c d := by
+  unfold min4 max4
+  exact le_trans (le_trans (min_le_left _ _) (le_trans (min_le_left _ _) (min_le_left _ _)))
+    (le_trans (le_max_left _ _) (le_trans (le_max_left _ _) (le_max_left _ _)))
+
+theorem zip4_min_le_max (a b c d : List Rat) :
+    List.Forall₂ (· ≤ ·) (zip4 min4 a b c d) (zip4 max4 a b c d) := by
+  induction a generalizing b c d with
+  | nil => simp [zip4]
+  | cons x t ih =>
+    cases b with
+    | nil => simp [zip4]
+    | cons x2 t2 =>
+    cases c with
+    | nil => simp [zip4]
+    | cons x3 t3 =>
+    cases d with
+    | nil => simp [zip4]
+    | cons x4 t4 =>
+      simp only [zip4]
+      exact List.Forall₂.cons (min4_le_max4 _ _ _ _) (ih t2 t3 t4)
+
+
+theorem zip4_getElem? (f : Rat → Rat → Rat → Rat → Rat) (a b c d : List Rat) (j : Nat)
+    (ha : j < a.length) (hb : j < b.length) (hc : j < c.length) (hd : j < d.length) :
+    (zip4 f a b c d)[j]? = some (f a[j] b[j] c[j] d[j]) := by
+  induction a generalizing b c d j with
+  | nil => simp at ha
+  | cons x t ih =>
+    cases b with
+    | nil => simp at hb
+    | cons x2 t2 =>
+    cases c with
+    | nil => simp at hc
+    | cons x3 t3 =>
+    cases d with
+    | nil => simp at hd
+    | cons x4 t4 =>
+      cases j with
+      | zero => simp [zip4]
+      | succ k =>
+        simp only [zip4, List.getElem?_cons_succ, List.getElem_cons_succ]
+        exact ih t2 t3 t4 k (by simpa using ha) (by simpa using hb) (by simpa using hc) (by simpa using hd)
+
+/-- one row of the corner grid: `x`-step `[a, b]` against every `y`-step -/
+def cornerRow (f : Rat → Rat → Rat → Rat → Rat) (op : Rat → Rat → Rat) (a b : Rat) (yl yr : List Rat) : List Rat :=
+  zip4 f (yl.map (fun y => op a y)) (yr.map (fun y => op a y)) (yl.map (fun y => op b y)) (yr.map (fun y => op b y))
+
+/-- the `n²` corner minima / maxima -/
+def cornerGrid (f : Rat → Rat → Rat → Rat → Rat) (op : Rat → Rat → Rat) (xl xr yl yr : List Rat) : List Rat :=
+  zip4 f (cartesian op xl yl) (cartesian op xl yr) (cartesian op xr yl) (cartesian op xr yr)
+
+theorem cornerGrid_cons (f : Rat → Rat → Rat → Rat → Rat) (op : Rat → Rat → Rat) (a b : Rat)
+    (ta tb yl yr : List Rat) (hlen : yl.length = yr.length) :
+    cornerGrid f op (a :: ta) (b :: tb) yl yr = cornerRow f op a b yl yr ++ cornerGrid f op ta tb yl yr := by
+  simp only [cornerGrid, cornerRow, cartesian_cons]
+  rw [zip4_append _ _ _ _ _ _ _ _ _ (by simp [hlen]) (by simp) (by simp [hlen])]
+
+theorem cornerGrid_length (f : Rat → Rat → Rat → Rat → Rat) (op : Rat → Rat → Rat) (xl xr yl yr : List Rat) (n : Nat)
+    (h1 : xl.length = n) (h2 : xr.length = n) (h3 : yl.length = n) (h4 : yr.length = n) :
+    (cornerGrid f op xl xr yl yr).length = n * n := by
+  unfold cornerGrid
+  apply zip4_length <;> simp [cartesian_length, h1, h2, h3, h4]
+
+theorem cornerRow_getElem? (f : Rat → Rat → Rat → Rat → Rat) (op : Rat → Rat → Rat) (a b : Rat) (yl yr : List Rat)
+    (j : Nat) (hl : j < yl.length) (hr : j < yr.length) :
+    (cornerRow f op a b yl yr)[j]? = some (f (op a yl[j]) (op a yr[j]) (op b yl[j]) (op b yr[j])) := by
+  unfold cornerRow
+  rw [zip4_getElem? f _ _ _ _ j (by simpa using hl) (by simpa using hr) (by simpa using hl) (by simpa using hr)]
+  simp
+
+/-- any choice of one cell per row of the grid: the cells hit by the predicate are at most the entries
+of the whole grid hit by it (no permutation needed) -/
+theorem card_le_countP_grid (f : Rat → Rat → Rat → Rat → Rat) (op : Rat → Rat → Rat) (P : Rat → Bool)
+    (yl yr : List Rat) (N : Nat) (hyl : yl.length = N) (hyr : yr.length = N) :
+    ∀ (k : Nat) (xl xr : List Rat) (hxl : xl.length = k) (hxr : xr.length = k) (s : Fin k → Fin N),
+      (univ.filter (fun m : Fin k =>
+        P (f (op (xl[m.val]'(by omega)) (yl[(s m).val]'(by omega))) (op (xl[m.val]'(by omega)) (yr[(s m).val]'(by omega)))
+             (op (xr[m.val]'(by omega)) (yl[(s m).val]'(by omega))) (op (xr[m.val]'(by omega)) (yr[(s m).val]'(by omega)))) = true)).card
+        ≤ (cornerGrid f op xl xr yl yr).countP P := by
+  intro k
+  induction k with
+  | zero => intro xl xr hxl hxr s; simp
+  | succ k ih =>
+    intro xl xr hxl hxr s
+    cases xl with
+    | nil => simp at hxl
+    | cons a ta =>
+    cases xr with
+    | nil => simp at hxr
+    | cons b tb =>
+      rw [cornerGrid_cons f op a b ta tb yl yr (by rw [hyl, hyr]), List.countP_append, Fin.card_filter_univ_succ']
+      have h1 := ih ta tb (by simpa using hxl) (by simpa using hxr) (fun m => s m.succ)
+      have h0 : (if P (f (op a (yl[(s 0).val]'(by omega))) (op a (yr[(s 0).val]'(by omega)))
+          (op b (yl[(s 0).val]'(by omega))) (op b (yr[(s 0).val]'(by omega)))) = true then 1 else 0) ≤
+          (cornerRow f op a b yl yr).countP P := by
+        split
+        · rename_i hp
+          have hmem := List.mem_of_getElem? (cornerRow_getElem? f op a b yl yr (s 0).val (by omega) (by omega))
+          exact List.countP_pos_iff.mpr ⟨_, hmem, hp⟩
+        · exact Nat.zero_le _
+      simp only [Fin.val_zero, List.getElem_cons_zero, Fin.val_succ, List.getElem_cons_succ] at h0 h1 ⊢
+      exact Nat.add_le_add h0 h1
+
+theorem min4_assoc_arith (a b c d : Rat) : min4 a b c d = Arith.min4 a b c d := by
+  unfold min4 Arith.min4; rw [min_assoc (min a b) c d]
+
+theorem max4_assoc_arith (a b c d : Rat) : max4 a b c d = Arith.max4 a b c d := by
+  unfold max4 Arith.max4; rw [max_assoc (max a b) c d]
+
+theorem mul_corner_hull (a b c d x y : Rat) (hx1 : a ≤ x) (hx2 : x ≤ b) (hy1 : c ≤ y) (hy2 : y ≤ d) :
+    min4 (a*c) (a*d) (b*c) (b*d) ≤ x*y ∧ x*y ≤ max4 (a*c) (a*d) (b*c) (b*d) := by
+  rw [min4_assoc_arith, max4_assoc_arith]
+  exact Arith.mul_hull a b c d x y hx1 hx2 hy1 hy2
+
+/-- the naive bounds as a box -/
+def naiveB (X Y : PB) : PB := ⟨(naiveOp (· * ·) X Y).1, (naiveOp (· * ·) X Y).2⟩
+
+theorem naiveB_eq (n : Nat) (X Y : PB) (hX : X.left.length = n) :
+    naiveB X Y = ⟨(sortR (cornerGrid min4 (· * ·) X.left X.right Y.left Y.right)).take n,
+      (sortR (cornerGrid max4 (· * ·) X.left X.right Y.left Y.right)).drop (n * n - n)⟩ := by
+  subst hX
+  rfl
+
+/-- **the naive rule is valid for every selection and every coupling** (indeed for every assignment
+`σ` of a `y`-step to each `x`-step): the `i`-th smallest of `n` cell minima taken from `n` distinct rows
+is at least the `i`-th smallest of all `n²` cell minima, dually for the maxima -/
+theorem naive_allValid (n : Nat) (X Y : PB) (hX : WF n X) (hY : WF n Y) :
+    AllValid n (· * ·) X Y (naiveB X Y) hX.toWFS hY.toWFS := by
+  intro x y hx hy σ i l r hl hr
+  have hi := i.isLt
+  rw [naiveB_eq n X Y hX.llen] at hl hr
+  simp only at hl hr
+  have hxl := hX.llen; have hxr := hX.rlen; have hyl := hY.llen; have hyr := hY.rlen
+  have hnn : n ≤ n * n := Nat.le_mul_self n
+  set GL := cornerGrid min4 (· * ·) X.left X.right Y.left Y.right with hGL
+  set GR := cornerGrid max4 (· * ·) X.left X.right Y.left Y.right with hGR
+  have lGL : (sortR GL).length = n * n := by rw [sortR_length]; exact cornerGrid_length _ _ _ _ _ _ n hxl hxr hyl hyr
+  have lGR : (sortR GR).length = n * n := by rw [sortR_length]; exact cornerGrid_length _ _ _ _ _ _ n hxl hxr hyl hyr
+  have hull : ∀ m : Fin n,
+      min4 (X.left[m.val] * Y.left[(σ m).val]) (X.left[m.val] * Y.right[(σ m).val])
+        (X.right[m.val] * Y.left[(σ m).val]) (X.right[m.val] * Y.right[(σ m).val]) ≤ x m * y (σ m) ∧
+      x m * y (σ m) ≤ max4 (X.left[m.val] * Y.left[(σ m).val]) (X.left[m.val] * Y.right[(σ m).val])
+        (X.right[m.val] * Y.left[(σ m).val]) (X.right[m.val] * Y.right[(σ m).val]) := fun m =>
+    mul_corner_hull _ _ _ _ _ _ (hx m).1 (hx m).2 (hy (σ m)).1 (hy (σ m)).2
+  constructor
+  · rw [List.getElem?_take_of_lt hi, List.getElem?_eq_getElem (by omega)] at hl
+    have el := Option.some.inj hl
+    subst el
+    have c1 : (univ.filter (fun m : Fin n => x m * y (σ m) < (sortR GL)[i.val])).card ≤
+        (univ.filter (fun m : Fin n => decide (min4 (X.left[m.val] * Y.left[(σ m).val]) (X.left[m.val] * Y.right[(σ m).val])
+          (X.right[m.val] * Y.left[(σ m).val]) (X.right[m.val] * Y.right[(σ m).val]) < (sortR GL)[i.val]) = true)).card := by
+      apply card_le_card
+      intro m hm
+      rw [Finset.mem_filter] at hm ⊢
+      refine ⟨hm.1, ?_⟩
+      simp only [decide_eq_true_eq]
+      exact lt_of_le_of_lt (hull m).1 hm.2
+    have c2 := card_le_countP_grid min4 (· * ·) (fun z => decide (z < (sortR GL)[i.val])) Y.left Y.right n hyl hyr
+      n X.left X.right hxl hxr σ
+    have c3 : GL.countP (fun z => decide (z < (sortR GL)[i.val])) ≤ i.val := by
+      rw [← (sortR_perm GL).countP_eq]
+      have := countP_map_le_of_tail id (fun z => decide (z < (sortR GL)[i.val])) (sortR GL) i.val (by
+        intro j hj hij
+        simp only [id, decide_eq_false_iff_not, not_lt]
+        exact sorted_get_le _ (sortR_sorted GL) i.val j (by omega) hj hij)
+      simpa using this
+    exact le_trans c1 (le_trans c2 c3)
+  · rw [List.getElem?_drop, List.getElem?_eq_getElem (by omega)] at hr
+    have er := Option.some.inj hr
+    subst er
+    have c1 : (univ.filter (fun m : Fin n => (sortR GR)[n * n - n + i.val] < x m * y (σ m))).card ≤
+        (univ.filter (fun m : Fin n => decide ((sortR GR)[n * n - n + i.val] <
+          max4 (X.left[m.val] * Y.left[(σ m).val]) (X.left[m.val] * Y.right[(σ m).val])
+          (X.right[m.val] * Y.left[(σ m).val]) (X.right[m.val] * Y.right[(σ m).val])) = true)).card := by
+      apply card_le_card
+      intro m hm
+      rw [Finset.mem_filter] at hm ⊢
+      refine ⟨hm.1, ?_⟩
+      simp only [decide_eq_true_eq]
+      exact lt_of_lt_of_le hm.2 (hull m).2
+    have c2 := card_le_countP_grid max4 (· * ·) (fun z => decide ((sortR GR)[n * n - n + i.val] < z)) Y.left Y.right n hyl hyr
+      n X.left X.right hxl hxr σ
+    have c3 : GR.countP (fun z => decide ((sortR GR)[n * n - n + i.val] < z)) ≤ n - 1 - i.val := by
+      rw [← (sortR_perm GR).countP_eq]
+      have := countP_map_le_of_head id (fun z => decide ((sortR GR)[n * n - n + i.val] < z)) (sortR GR)
+        (n * n - n + i.val + 1) (by
+        intro j hj hij
+        simp only [id, decide_eq_false_iff_not, not_lt]
+        exact sorted_get_le _ (sortR_sorted GR) j (n * n - n + i.val) hj (by omega) (by omega))
+      have e : (sortR GR).length - (n * n - n + i.val + 1) = n - 1 - i.val := by rw [lGR]; omega
+      rw [List.map_id] at this
+      exact le_trans this (le_of_eq e)
+    exact le_trans c1 (le_trans c2 c3)
+
+/-- the constructor accepts the naive bounds unchanged -/
+theorem naive_mk_ok (n : Nat) (X Y : PB) (hX : WF n X) (hY : WF n Y) :
+    mk n false (naiveOp (· * ·) X Y).1 (naiveOp (· * ·) X Y).2 = .ok (naiveB X Y) ∧ WF n (naiveB X Y) := by
+  have hxl := hX.llen; have hxr := hX.rlen; have hyl := hY.llen; have hyr := hY.rlen
+  have hnn : n ≤ n * n := Nat.le_mul_self n
+  have e := naiveB_eq n X Y hX.llen
+  set GL := cornerGrid min4 (· * ·) X.left X.right Y.left Y.right with hGL
+  set GR := cornerGrid max4 (· * ·) X.left X.right Y.left Y.right with hGR
+  have lGL : (sortR GL).length = n * n := by rw [sortR_length]; exact cornerGrid_length _ _ _ _ _ _ n hxl hxr hyl hyr
+  have lGR : (sortR GR).length = n * n := by rw [sortR_length]; exact cornerGrid_length _ _ _ _ _ _ n hxl hxr hyl hyr
+  have hle : List.Forall₂ (· ≤ ·) (sortR GL) (sortR GR) := sortR_forall₂ _ _ (zip4_min_le_max _ _ _ _)
+  have ll : ((sortR GL).take n).length = n := by simp [lGL]; exact hnn
+  have lr : ((sortR GR).drop (n * n - n)).length = n := by simp [lGR]; omega
+  have sl : ((sortR GL).take n).Pairwise (· ≤ ·) := (sortR_sorted GL).sublist (List.take_sublist _ _)
+  have sr : ((sortR GR).drop (n * n - n)).Pairwise (· ≤ ·) := (sortR_sorted GR).sublist (List.drop_sublist _ _)
+  have hh : ∀ i (h : i < ((sortR GL).take n).length), ((sortR GL).take n)[i] ≤
+      ((sortR GR).drop (n * n - n))[i]'(by rw [lr]; rw [ll] at h; exact h) := by
+    intro i h
+    rw [ll] at h
+    simp only [List.getElem_take, List.getElem_drop]
+    exact le_trans (forall₂_getElem _ _ hle i (by omega))
+      (sorted_get_le _ (sortR_sorted GR) i (n * n - n + i) (by omega) (by omega) (by omega))
+  have w : WF n ⟨(sortR GL).take n, (sortR GR).drop (n * n - n)⟩ :=
+    ⟨⟨ll, lr, sl, sr⟩, fun i h => hh i (by rw [ll]; exact h)⟩
+  have e1 : (naiveOp (· * ·) X Y).1 = (sortR GL).take n := congrArg PB.left e
+  have e2 : (naiveOp (· * ·) X Y).2 = (sortR GR).drop (n * n - n) := congrArg PB.right e
+  rw [e, e1, e2]
+  exact ⟨mk_arr_ok n _ _ ll lr sl sr hh, w⟩
+
+/-! ## the straddling product: naive ∩ Balch -/
+
+theorem mul_f_eq_noStraddle (n : Nat) (X Y : PB) (sX : straddlesZero X = false) (sY : straddlesZero Y = false) :
+    mul n .f X Y = frechetMulNoStraddle n X Y := by
+  simp [mul, frechetMul, sX, sY]
+
+theorem mulNoStraddle_good (n : Nat) (X Y : PB) (hX : WF n X) (hY : WF n Y) (sX : OneSign X) (sY : OneSign Y) :
+    ∃ R, frechetMulNoStraddle n X Y = .ok R ∧ WF n R ∧ Good n (· * ·) X Y R hX.toWFS hY.toWFS := by
+  rw [← mul_f_eq_noStraddle n X Y (not_straddles_of_oneSign X sX) (not_straddles_of_oneSign Y sY)]
+  exact mul_f_onesign_good n X Y hX hY sX sY
+
+theorem lo_le (n : Nat) (Y : PB) (hY : WF n Y) : ∀ v ∈ Y.left, lo Y ≤ v := by
+  intro v hv
+  unfold lo
+  cases h : Y.left with
+  | nil => rw [h] at hv; simp at hv
+  | cons a t =>
+    rw [h] at hv
+    simp only [List.headD_cons]
+    rcases List.mem_cons.mp hv with e | e
+    · rw [e]
+    · have := hY.lsorted
+      rw [h, List.pairwise_cons] at this
+      exact this.1 v e
+
+theorem lo_neg_of_straddles (n : Nat) (Y : PB) (hY : WF n Y) (s : straddlesZero Y = true) : lo Y < 0 := by
+  unfold straddlesZero at s
+  simp only [Bool.and_eq_true, decide_eq_true_eq] at s
+  have ne : Y.left ≠ [] := by
+    intro e
+    rw [e] at s
+    simp [minL] at s
+  exact lt_of_le_of_lt (lo_le n Y hY _ (minL_spec 0 Y.left ne).1) s.1
+
+theorem nonneg_shift_lo (n : Nat) (Y : PB) (hY : WF n Y) : NonNeg (mapB (fun v => v - lo Y) Y) := by
+  have hl := hY.llen; have hr := hY.rlen
+  constructor
+  · intro v hv
+    simp only [mapB, List.mem_map] at hv
+    obtain ⟨a, ha, rfl⟩ := hv
+    linarith [lo_le n Y hY a ha]
+  · intro v hv
+    simp only [mapB, List.mem_map] at hv
+    obtain ⟨a, ha, rfl⟩ := hv
+    obtain ⟨i, hi', rfl⟩ := List.getElem_of_mem ha
+    have h1 := hY.le i (by omega)
+    have h2 := lo_le n Y hY _ (List.getElem_mem (l := Y.left) (n := i) (by omega))
+    linarith
+
+theorem sub_const_mono (c : Rat) : ∀ x y : Rat, x ≤ y → (fun a b => a - b) x c ≤ (fun a b => a - b) y c :=
+  fun x y h => by simp only; linarith
+
+theorem add_const_mono (c : Rat) : ∀ x y : Rat, x ≤ y → (fun a b => a + b) x c ≤ (fun a b => a + b) y c :=
+  fun x y h => by simp only; linarith
+
+theorem mul_neg_anti (c : Rat) (hc : c < 0) :
+    ∀ x y : Rat, x ≤ y → (fun a b => a * b) y c ≤ (fun a b => a * b) x c :=
+  fun x y h => by simp only; exact mul_le_mul_of_nonpos_right h (le_of_lt hc)
+
+/-- **`x.balchprod(y)`** (`y` straddles zero; `x` may or may not): every step of the decomposition
+`xy = (x−x₀)(y−y₀) + y₀(x−x₀) + x₀(y−y₀) + x₀y₀` (resp. `xy = x(y−y₀) + x y₀`) returns a well-formed
+p-box, and the result is valid for every selection and every coupling — the summands are valid
+outcome families of their boxes and validity composes through the Frechet sums (`AllValid.comp`). -/
+theorem balchprod_allValid (n : Nat) (X Y : PB) (hX : WF n X) (hY : WF n Y) (sY : straddlesZero Y = true) :
+    ∃ B, balchprod n X Y = .ok B ∧ WF n B ∧ AllValid n (· * ·) X Y B hX.toWFS hY.toWFS := by
+  have hy0 := lo_neg_of_straddles n Y hY sY
+  obtain ⟨e2, w2⟩ := numberOp_shift n (fun a b => a - b) (lo Y) Y hY (sub_const_mono _)
+  have p2 := nonneg_shift_lo n Y hY
+  by_cases sX : straddlesZero X = true
+  · have hx0 := lo_neg_of_straddles n X hX sX
+    obtain ⟨e1, w1⟩ := numberOp_shift n (fun a b => a - b) (lo X) X hX (sub_const_mono _)
+    have p1 := nonneg_shift_lo n X hX
+    obtain ⟨A, eA, wA, gA⟩ := mulNoStraddle_good n _ _ w1 w2 (Or.inl p1) (Or.inl p2)
+    obtain ⟨e3, w3⟩ := numberOp_flip n (fun a b => a * b) (lo Y) _ w1 (mul_neg_anti _ hy0)
+    obtain ⟨e4, w4⟩ := numberOp_flip n (fun a b => a * b) (lo X) _ w2 (mul_neg_anti _ hx0)
+    obtain ⟨e5, w5, g5⟩ := good_frechet (fun a b => a + b) add_mono2 n _ _ w3 w4
+    obtain ⟨e6, w6, g6⟩ := good_frechet (fun a b => a + b) add_mono2 n _ _ wA w5
+    obtain ⟨e7, w7⟩ := numberOp_shift n (fun a b => a + b) (lo X * lo Y) _ w6 (add_const_mono _)
+    refine ⟨_, ?_, w7, ?_⟩
+    · simp only [balchprod, sX, sY, Bool.and_self, if_true, e1, e2, eA, e3, e4, e5, e6, e7, bind, Except.bind]
+    · intro x y hx hy σ
+      have selx := sel_mapB (fun v => v - lo X) (fun a b h => by linarith) n X hX.toWFS w1.toWFS x hx
+      have sely := sel_mapB (fun v => v - lo Y) (fun a b h => by linarith) n Y hY.toWFS w2.toWFS y hy
+      have hu := gA.valid _ _ selx sely σ
+      have hv1 := valid_flipB (fun v => v * lo Y) (fun a b h => mul_le_mul_of_nonpos_right h (le_of_lt hy0))
+        n _ w1.toWFS w3.toWFS _ selx
+      have hv2 := (valid_flipB (fun v => v * lo X) (fun a b h => mul_le_mul_of_nonpos_right h (le_of_lt hx0))
+        n _ w2.toWFS w4.toWFS _ sely).reindex σ
+      have hv := g5.allValid.comp _ _ hv1 hv2
+      have hs := g6.allValid.comp _ _ hu hv
+      have hfin := hs.add_const (lo X * lo Y)
+      have e : (fun m => x m * y (σ m)) = (fun m => (x m - lo X) * (y (σ m) - lo Y) +
+          ((x m - lo X) * lo Y + (y (σ m) - lo Y) * lo X) + lo X * lo Y) := by
+        funext m; ring
+      rw [e]
+      exact hfin
+  · have sX' : straddlesZero X = false := by simpa using sX
+    have oX := oneSign_of_not_straddles n X hX sX'
+    obtain ⟨A, eA, wA, gA⟩ := mulNoStraddle_good n X _ hX w2 oX (Or.inl p2)
+    obtain ⟨e3, w3⟩ := numberOp_flip n (fun a b => a * b) (lo Y) X hX (mul_neg_anti _ hy0)
+    obtain ⟨e6, w6, g6⟩ := good_frechet (fun a b => a + b) add_mono2 n _ _ wA w3
+    refine ⟨_, ?_, w6, ?_⟩
+    · simp only [balchprod, sX', sY, Bool.false_and, Bool.false_eq_true, if_false, if_true, e2, eA, e3, e6, bind,
+        Except.bind]
+    · intro x y hx hy σ
+      have sely := sel_mapB (fun v => v - lo Y) (fun a b h => by linarith) n Y hY.toWFS w2.toWFS y hy
+      have hu := gA.valid _ _ hx sely σ
+      have hv := valid_flipB (fun v => v * lo Y) (fun a b h => mul_le_mul_of_nonpos_right h (le_of_lt hy0))
+        n X hX.toWFS w3.toWFS x hx
+      have hs := g6.allValid.comp _ _ hu hv
+      have e : (fun m => x m * y (σ m)) = (fun m => x m * (y (σ m) - lo Y) + x m * lo Y) := by
+        funext m; ring
+      rw [e]
+      exact hs
+
+theorem straddleFrechet_eq (n : Nat) (X Y : PB) :
+    straddleFrechet n X Y =
+      (mk n false (naiveOp (· * ·) X Y).1 (naiveOp (· * ·) X Y).2 >>= fun nv =>
+        balchprod n X Y >>= fun bl => imp n nv bl) := rfl
+
+theorem wf_of_envImp (n : Nat) (P : PB) (h : EnvImp.WF n P) : WF n P :=
+  ⟨⟨h.llen, h.rlen, h.lsorted, h.rsorted⟩, fun i hi => forall₂_getElem _ _ h.le i (by rw [h.llen]; exact hi)⟩
+
+/-- **`straddle_frechet_pbox(x, y)`** (`y` straddles zero): whatever it returns is the step-wise
+intersection of the naive and the Balch bounds, well formed, and valid for every selection and coupling -/
+theorem straddleFrechet_allValid (n : Nat) (X Y R : PB) (hX : WF n X) (hY : WF n Y)
+    (sY : straddlesZero Y = true) (hR : straddleFrechet n X Y = .ok R) :
+    WF n R ∧ AllValid n (· * ·) X Y R hX.toWFS hY.toWFS := by
+  obtain ⟨eN, wN⟩ := naive_mk_ok n X Y hX hY
+  obtain ⟨B, eB, wB, vB⟩ := balchprod_allValid n X Y hX hY sY
+  rw [straddleFrechet_eq] at hR
+  simp only [eN, eB, bind, Except.bind] at hR
+  by_cases hc : EnvImp.Compat (naiveB X Y) B
+  · rw [EnvImp.imp_ok (wf_envImp n _ wN) (wf_envImp n _ wB) hc] at hR
+    have e := Except.ok.inj hR
+    subst e
+    refine ⟨wf_of_envImp n _ (EnvImp.impSpec_wf (wf_envImp n _ wN) (wf_envImp n _ wB) hc), ?_⟩
+    intro x y hx hy σ
+    exact (naive_allValid n X Y hX hY x y hx hy σ).imp (vB x y hx hy σ)
+  · rw [EnvImp.imp_err (wf_envImp n _ wN) (wf_envImp n _ wB) hc] at hR
+    cases hR
+
+/-- **`X.mul(Y, 'f')` is valid for ALL well-formed operands** — one-signed operands through the sign
+routing, zero-straddling operands through naive ∩ Balch (with the operands exchanged when only the
+first one straddles) -/
+theorem mul_f_allValid (n : Nat) (X Y R : PB) (hX : WF n X) (hY : WF n Y) (hR : mul n .f X Y = .ok R) :
+    WF n R ∧ AllValid n (· * ·) X Y R hX.toWFS hY.toWFS := by
+  by_cases sY : straddlesZero Y = true
+  · have e : mul n .f X Y = straddleFrechet n X Y := by simp [mul, frechetMul, sY]
+    rw [e] at hR
+    exact straddleFrechet_allValid n X Y R hX hY sY hR
+  · have sY' : straddlesZero Y = false := by simpa using sY
+    by_cases sX : straddlesZero X = true
+    · have e : mul n .f X Y = straddleFrechet n Y X := by simp [mul, frechetMul, sX, sY']
+      rw [e] at hR
+      obtain ⟨w, v⟩ := straddleFrechet_allValid n Y X R hY hX sX hR
+      exact ⟨w, v.swap.congr (fun a b => mul_comm b a)⟩
+    · have sX' : straddlesZero X = false := by simpa using sX
+      obtain ⟨R', e, w, g⟩ := mul_f_onesign_good n X Y hX hY (oneSign_of_not_straddles n X hX sX')
+        (oneSign_of_not_straddles n Y hY sY')
+      rw [e] at hR
+      have e' := Except.ok.inj hR
+      subst e'
+      exact ⟨w, g.allValid⟩
+
+/-- two well-formed boxes that are valid for one common outcome family meet at every step -/
+theorem compat_of_common_valid (n : Nat) (P Q : PB) (hP : WF n P) (hQ : WF n Q) (z : Fin n → Rat)
+    (vP : Valid n P z) (vQ : Valid n Q z) : EnvImp.Compat P Q := by
+  have sP := Valid.sel_of_monotone hP.toWFS (fun m => z (Tuple.sort z m)) (Tuple.monotone_sort z)
+    (vP.reindex (Tuple.sort z))
+  have sQ := Valid.sel_of_monotone hQ.toWFS (fun m => z (Tuple.sort z m)) (Tuple.monotone_sort z)
+    (vQ.reindex (Tuple.sort z))
+  unfold EnvImp.Compat EnvImp.PLe
+  rw [List.forall₂_iff_get]
+  refine ⟨by simp [hP.llen, hQ.llen, hP.rlen, hQ.rlen], fun i h1 h2 => ?_⟩
+  simp only [List.length_zipWith, hP.llen, hQ.llen, min_self] at h1
+  simp only [List.get_eq_getElem, List.getElem_zipWith]
+  have a := sP ⟨i, h1⟩
+  have b := sQ ⟨i, h1⟩
+  exact le_trans (max_le a.1 b.1) (le_min a.2 b.2)
+
+/-- the straddling product never fails on well-formed operands: the naive and the Balch bounds are
+both valid for the outcomes of the lower bounds, hence they meet -/
+theorem straddleFrechet_total (n : Nat) (X Y : PB) (hX : WF n X) (hY : WF n Y) (sY : straddlesZero Y = true) :
+    ∃ R, straddleFrechet n X Y = .ok R := by
+  obtain ⟨eN, wN⟩ := naive_mk_ok n X Y hX hY
+  obtain ⟨B, eB, wB, vB⟩ := balchprod_allValid n X Y hX hY sY
+  have hc := compat_of_common_valid n _ _ wN wB _
+    (naive_allValid n X Y hX hY _ _ (sel_left n X hX) (sel_left n Y hY) (Equiv.refl _))
+    (vB _ _ (sel_left n X hX) (sel_left n Y hY) (Equiv.refl _))
+  refine ⟨EnvImp.impSpec (naiveB X Y) B, ?_⟩
+  rw [straddleFrechet_eq]
+  simp only [eN, eB, bind, Except.bind]
+  exact EnvImp.imp_ok (wf_envImp n _ wN) (wf_envImp n _ wB) hc
+
+/-- **`X.mul(Y, 'f')` returns a well-formed p-box for ALL well-formed operands** -/
+theorem mul_f_total (n : Nat) (X Y : PB) (hX : WF n X) (hY : WF n Y) :
+    ∃ R, mul n .f X Y = .ok R ∧ WF n R := by
+  have key : ∃ R, mul n .f X Y = .ok R := by
+    by_cases sY : straddlesZero Y = true
+    · have e : mul n .f X Y = straddleFrechet n X Y := by simp [mul, frechetMul, sY]
+      rw [e]; exact straddleFrechet_total n X Y hX hY sY
+    · have sY' : straddlesZero Y = false := by simpa using sY
+      by_cases sX : straddlesZero X = true
+      · have e : mul n .f X Y = straddleFrechet n Y X := by simp [mul, frechetMul, sX, sY']
+        rw [e]; exact straddleFrechet_total n Y X hY hX sX
+      · have sX' : straddlesZero X = false := by simpa using sX
+        obtain ⟨R', e, -, -⟩ := mul_f_onesign_good n X Y hX hY (oneSign_of_not_straddles n X hX sX')
+          (oneSign_of_not_straddles n Y hY sY')
+        exact ⟨R', e⟩
+  obtain ⟨R, e⟩ := key
+  exact ⟨R, e, (mul_f_allValid n X Y R hX hY e).1⟩
+
+/-! ## any valid box encloses the perfect / opposite result of ANY operands (four-corner rule) -/
+
+/-- any focal pairing goes through the constructor: sorted lower endpoints, sorted upper endpoints -/
+theorem mk_cornerPair_ok (op : Rat → Rat → Rat) (n : Nat) (xl xr yl yr : List Rat)
+    (h1 : xl.length = n) (h2 : xr.length = n) (h3 : yl.length = n) (h4 : yr.length = n) :
+    mk n false (sortR (cornerPair op xl xr yl yr).1) (sortR (cornerPair op xl xr yl yr).2) =
+      .ok ⟨sortR (cornerPair op xl xr yl yr).1, sortR (cornerPair op xl xr yl yr).2⟩ := by
+  refine (mk_sorted_ok n _ _ ?_ ?_ ?_).1
+  · simp only [cornerPair]; apply zip4_length <;> simp [h1, h2, h3, h4]
+  · simp only [cornerPair]; apply zip4_length <;> simp [h1, h2, h3, h4]
+  · simp only [cornerPair]; exact zip4_min_le_max _ _ _ _
+
+
+theorem min4_mem (p q r s : Rat) : min4 p q r s = p ∨ min4 p q r s = q ∨ min4 p q r s = r ∨ min4 p q r s = s := by
+  unfold min4
+  rcases min_choice (min (min p q) r) s with h1 | h1
+  · rcases min_choice (min p q) r with h2 | h2
+    · rcases min_choice p q with h3 | h3
+      · left; rw [h1, h2, h3]
+      · right; left; rw [h1, h2, h3]
+    · right; right; left; rw [h1, h2]
+  · right; right; right; rw [h1]
+
+theorem max4_mem (p q r s : Rat) : max4 p q r s = p ∨ max4 p q r s = q ∨ max4 p q r s = r ∨ max4 p q r s = s := by
+  unfold max4
+  rcases max_choice (max (max p q) r) s with h1 | h1
+  · rcases max_choice (max p q) r with h2 | h2
+    · rcases max_choice p q with h3 | h3
+      · left; rw [h1, h2, h3]
+      · right; left; rw [h1, h2, h3]
+    · right; right; left; rw [h1, h2]
+  · right; right; right; rw [h1]
+
+/-- the corner minimum and maximum of a focal pair are values of `op` at points of the two intervals -/
+theorem corner_attained (op : Rat → Rat → Rat) (a b c d : Rat) (hab : a ≤ b) (hcd : c ≤ d) :
+    (∃ x y, (a ≤ x ∧ x ≤ b) ∧ (c ≤ y ∧ y ≤ d) ∧ op x y = min4 (op a c) (op a d) (op b c) (op b d)) ∧
+    (∃ x y, (a ≤ x ∧ x ≤ b) ∧ (c ≤ y ∧ y ≤ d) ∧ op x y = max4 (op a c) (op a d) (op b c) (op b d)) := by
+  constructor
+  · rcases min4_mem (op a c) (op a d) (op b c) (op b d) with h | h | h | h
+    · exact ⟨a, c, ⟨le_refl _, hab⟩, ⟨le_refl _, hcd⟩, h.symm⟩
+    · exact ⟨a, d, ⟨le_refl _, hab⟩, ⟨hcd, le_refl _⟩, h.symm⟩
+    · exact ⟨b, c, ⟨hab, le_refl _⟩, ⟨le_refl _, hcd⟩, h.symm⟩
+    · exact ⟨b, d, ⟨hab, le_refl _⟩, ⟨hcd, le_refl _⟩, h.symm⟩
+  · rcases max4_mem (op a c) (op a d) (op b c) (op b d) with h | h | h | h
+    · exact ⟨a, c, ⟨le_refl _, hab⟩, ⟨le_refl _, hcd⟩, h.symm⟩
+    · exact ⟨a, d, ⟨le_refl _, hab⟩, ⟨hcd, le_refl _⟩, h.symm⟩
+    · exact ⟨b, c, ⟨hab, le_refl _⟩, ⟨le_refl _, hcd⟩, h.symm⟩
+    · exact ⟨b, d, ⟨hab, le_refl _⟩, ⟨hcd, le_refl _⟩, h.symm⟩
+
+/-- corner minimum of step `m` of `X` against step `τ m` of `Y` -/
+def cminF (op : Rat → Rat → Rat) (n : Nat) (X Y : PB) (hX : WFS n X) (hY : WFS n Y) (τ : Equiv.Perm (Fin n))
+    (m : Fin n) : Rat :=
+  min4 (op (X.left[m.val]'(by have := hX.llen; omega)) (Y.left[(τ m).val]'(by have := hY.llen; omega)))
+    (op (X.left[m.val]'(by have := hX.llen; omega)) (Y.right[(τ m).val]'(by have := hY.rlen; omega)))
+    (op (X.right[m.val]'(by have := hX.rlen; omega)) (Y.left[(τ m).val]'(by have := hY.llen; omega)))
+    (op (X.right[m.val]'(by have := hX.rlen; omega)) (Y.right[(τ m).val]'(by have := hY.rlen; omega)))
+
+def cmaxF (op : Rat → Rat → Rat) (n : Nat) (X Y : PB) (hX : WFS n X) (hY : WFS n Y) (τ : Equiv.Perm (Fin n))
+    (m : Fin n) : Rat :=
+  max4 (op (X.left[m.val]'(by have := hX.llen; omega)) (Y.left[(τ m).val]'(by have := hY.llen; omega)))
+    (op (X.left[m.val]'(by have := hX.llen; omega)) (Y.right[(τ m).val]'(by have := hY.rlen; omega)))
+    (op (X.right[m.val]'(by have := hX.rlen; omega)) (Y.left[(τ m).val]'(by have := hY.llen; omega)))
+    (op (X.right[m.val]'(by have := hX.rlen; omega)) (Y.right[(τ m).val]'(by have := hY.rlen; omega)))
+
+/-- under ANY pairing `τ` of the steps, the corner minima are outcomes of a selection and coupling, and so
+are the corner maxima: a valid box counts them like any other outcome family -/
+theorem corner_counts (op : Rat → Rat → Rat) (n : Nat) (X Y F : PB) (hX : WF n X) (hY : WF n Y)
+    (v : AllValid n op X Y F hX.toWFS hY.toWFS) (τ : Equiv.Perm (Fin n)) (i : Fin n) (l r : Rat)
+    (hl : F.left[i.val]? = some l) (hr : F.right[i.val]? = some r) :
+    (univ.filter (fun m : Fin n => cminF op n X Y hX.toWFS hY.toWFS τ m < l)).card ≤ i.val ∧
+    (univ.filter (fun m : Fin n => r < cmaxF op n X Y hX.toWFS hY.toWFS τ m)).card ≤ n - 1 - i.val := by
+  have hxl := hX.llen; have hxr := hX.rlen; have hyl := hY.llen; have hyr := hY.rlen
+  have att := fun m : Fin n => corner_attained op (X.left[m.val]'(by omega)) (X.right[m.val]'(by omega))
+    (Y.left[(τ m).val]'(by omega)) (Y.right[(τ m).val]'(by omega)) (hX.le m.val m.isLt) (hY.le (τ m).val (τ m).isLt)
+  choose xs ys hxs hys hmin using fun m => (att m).1
+  choose xs' ys' hxs' hys' hmax using fun m => (att m).2
+  have selY : ∀ (w : Fin n → Rat), (∀ m, Y.left[(τ m).val]'(by omega) ≤ w m ∧ w m ≤ Y.right[(τ m).val]'(by omega)) →
+      Sel n Y hY.toWFS (fun j => w (τ.symm j)) := by
+    intro w hw j
+    have := hw (τ.symm j)
+    simp only [Equiv.apply_symm_apply] at this
+    exact this
+  constructor
+  · have key := (v xs (fun j => ys (τ.symm j)) hxs (selY ys hys) τ i l r hl hr).1
+    simp only [Equiv.symm_apply_apply, hmin] at key
+    exact key
+  · have key := (v xs' (fun j => ys' (τ.symm j)) hxs' (selY ys' hys') τ i l r hl hr).2
+    simp only [Equiv.symm_apply_apply, hmax] at key
+    exact key
+
+theorem le_sorted_of_count {n : Nat} (z : Fin n → Rat) (s : List Rat) (hs : s.Pairwise (· ≤ ·))
+    (hp : s.Perm (List.ofFn z)) (k : Nat) (hk : k < s.length) (l : Rat)
+    (h : (univ.filter (fun m : Fin n => z m < l)).card ≤ k) : l ≤ s[k] := by
+  by_contra hlt
+  rw [not_le] at hlt
+  have h1 : k < s.countP (fun x => decide (x ≤ s[k])) :=
+    (sorted_getElem_le_iff s hs _ k hk).mp (le_refl _)
+  rw [hp.countP_eq, countP_ofFn z (fun v => v ≤ s[k])] at h1
+  have hsub : (univ.filter (fun m : Fin n => z m ≤ s[k])) ⊆ (univ.filter (fun m : Fin n => z m < l)) := by
+    intro m hm
+    rw [Finset.mem_filter] at hm ⊢
+    exact ⟨hm.1, lt_of_le_of_lt hm.2 hlt⟩
+  have := Finset.card_le_card hsub
+  omega
+
+theorem sorted_le_of_count {n : Nat} (z : Fin n → Rat) (s : List Rat) (hs : s.Pairwise (· ≤ ·))
+    (hp : s.Perm (List.ofFn z)) (k : Nat) (hk : k < s.length) (hkn : k < n) (r : Rat)
+    (h : (univ.filter (fun m : Fin n => r < z m)).card ≤ n - 1 - k) : s[k] ≤ r := by
+  rw [sorted_getElem_le_iff s hs r k hk, hp.countP_eq, countP_ofFn z (fun v => v ≤ r)]
+  have := card_le_add_card_gt z r
+  omega
+
+/-- **every box that is valid for `op X Y` under all couplings encloses the result of the four-corner
+rule under any pairing `τ` of the steps** (`τ = id`: perfect, `τ = rev`: opposite) — for ALL operands,
+no sign or monotonicity hypothesis -/
+theorem allValid_encloses_paired (op : Rat → Rat → Rat) (n : Nat) (X Y F : PB) (hX : WF n X) (hY : WF n Y)
+    (hlen : F.left.length = n ∧ F.right.length = n)
+    (v : AllValid n op X Y F hX.toWFS hY.toWFS) (τ : Equiv.Perm (Fin n)) (D : PB)
+    (sl : D.left.Pairwise (· ≤ ·)) (sr : D.right.Pairwise (· ≤ ·))
+    (pl : D.left.Perm (List.ofFn (cminF op n X Y hX.toWFS hY.toWFS τ)))
+    (pr : D.right.Perm (List.ofFn (cmaxF op n X Y hX.toWFS hY.toWFS τ))) : Encloses F D := by
+  intro k l r dl dr hl hr hdl hdr
+  have hk : k < n := by
+    have := (List.getElem?_eq_some_iff.mp hl).1
+    rw [hlen.1] at this; exact this
+  obtain ⟨c1, c2⟩ := corner_counts op n X Y F hX hY v τ ⟨k, hk⟩ l r hl hr
+  obtain ⟨h1, e1⟩ := List.getElem?_eq_some_iff.mp hdl
+  obtain ⟨h2, e2⟩ := List.getElem?_eq_some_iff.mp hdr
+  rw [← e1, ← e2]
+  exact ⟨le_sorted_of_count _ D.left sl pl k h1 l c1, sorted_le_of_count _ D.right sr pr k h2 hk r c2⟩
+
+theorem cornerPair_eq_ofFn (op : Rat → Rat → Rat) (n : Nat) (X Y : PB) (hX : WFS n X) (hY : WFS n Y)
+    (τ : Equiv.Perm (Fin n)) (yl yr : List Rat) (h1 : yl.length = n) (h2 : yr.length = n)
+    (e1 : ∀ m : Fin n, yl[m.val]'(by omega) = Y.left[(τ m).val]'(by have := hY.llen; omega))
+    (e2 : ∀ m : Fin n, yr[m.val]'(by omega) = Y.right[(τ m).val]'(by have := hY.rlen; omega)) :
+    (cornerPair op X.left X.right yl yr).1 = List.ofFn (cminF op n X Y hX hY τ) ∧
+    (cornerPair op X.left X.right yl yr).2 = List.ofFn (cmaxF op n X Y hX hY τ) := by
+  have hxl := hX.llen; have hxr := hX.rlen
+  have len : ∀ f, (zip4 f (List.zipWith op X.left yl) (List.zipWith op X.left yr) (List.zipWith op X.right yl)
+      (List.zipWith op X.right yr)).length = n := fun f => by
+    apply zip4_length <;> simp [hxl, hxr, h1, h2]
+  constructor
+  · apply List.ext_getElem
+    · simp only [cornerPair, len, List.length_ofFn]
+    · intro k hk1 hk2
+      simp only [cornerPair, len] at hk1
+      have := zip4_getElem? min4 (List.zipWith op X.left yl) (List.zipWith op X.left yr) (List.zipWith op X.right yl)
+        (List.zipWith op X.right yr) k (by simp; omega) (by simp; omega) (by simp; omega) (by simp; omega)
+      simp only [cornerPair]
+      rw [List.getElem?_eq_getElem (by rw [len]; exact hk1)] at this
+      rw [Option.some.inj this]
+      simp only [List.getElem_zipWith, List.getElem_ofFn, cminF, e1 ⟨k, hk1⟩, e2 ⟨k, hk1⟩]
+  · apply List.ext_getElem
+    · simp only [cornerPair, len, List.length_ofFn]
+    · intro k hk1 hk2
+      simp only [cornerPair, len] at hk1
+      have := zip4_getElem? max4 (List.zipWith op X.left yl) (List.zipWith op X.left yr) (List.zipWith op X.right yl)
+        (List.zipWith op X.right yr) k (by simp; omega) (by simp; omega) (by simp; omega) (by simp; omega)
+      simp only [cornerPair]
+      rw [List.getElem?_eq_getElem (by rw [len]; exact hk1)] at this
+      rw [Option.some.inj this]
+      simp only [List.getElem_zipWith, List.getElem_ofFn, cmaxF, e1 ⟨k, hk1⟩, e2 ⟨k, hk1⟩]
+
+/-- the perfect and the opposite result of the public methods, for any operation and ANY well-formed
+operands: the constructor returns the sorted corner minima / maxima, and every valid box encloses them -/
+theorem perfect_enclosed (op : Rat → Rat → Rat) (n : Nat) (X Y F : PB) (hX : WF n X) (hY : WF n Y)
+    (hlen : F.left.length = n ∧ F.right.length = n) (v : AllValid n op X Y F hX.toWFS hY.toWFS) :
+    ∃ D, mk n false (perfectOp op X Y).1 (perfectOp op X Y).2 = .ok D ∧ Encloses F D := by
+  obtain ⟨e1, e2⟩ := cornerPair_eq_ofFn op n X Y hX.toWFS hY.toWFS (Equiv.refl _) Y.left Y.right hY.llen hY.rlen
+    (fun m => rfl) (fun m => rfl)
+  refine ⟨_, mk_cornerPair_ok op n _ _ _ _ hX.llen hX.rlen hY.llen hY.rlen, ?_⟩
+  refine allValid_encloses_paired op n X Y F hX hY hlen v (Equiv.refl _) _ (sortR_sorted _) (sortR_sorted _) ?_ ?_
+  · simp only; rw [← e1]; exact sortR_perm _
+  · simp only; rw [← e2]; exact sortR_perm _
+
+theorem opposite_enclosed (op : Rat → Rat → Rat) (n : Nat) (X Y F : PB) (hX : WF n X) (hY : WF n Y)
+    (hlen : F.left.length = n ∧ F.right.length = n) (v : AllValid n op X Y F hX.toWFS hY.toWFS) :
+    ∃ D, mk n false (oppositeOp op X Y).1 (oppositeOp op X Y).2 = .ok D ∧ Encloses F D := by
+  have hyl := hY.llen; have hyr := hY.rlen
+  obtain ⟨e1, e2⟩ := cornerPair_eq_ofFn op n X Y hX.toWFS hY.toWFS Fin.revPerm Y.left.reverse Y.right.reverse
+    (by simp [hyl]) (by simp [hyr])
+    (fun m => by
+      simp only [List.getElem_reverse, Fin.revPerm_apply, Fin.val_rev]
+      congr 1; have := m.isLt; omega)
+    (fun m => by
+      simp only [List.getElem_reverse, Fin.revPerm_apply, Fin.val_rev]
+      congr 1; have := m.isLt; omega)
+  refine ⟨_, mk_cornerPair_ok op n _ _ _ _ hX.llen hX.rlen (by simp [hyl]) (by simp [hyr]), ?_⟩
+  refine allValid_encloses_paired op n X Y F hX hY hlen v Fin.revPerm _ (sortR_sorted _) (sortR_sorted _) ?_ ?_
+  · simp only; rw [← e1]; exact sortR_perm _
+  · simp only; rw [← e2]; exact sortR_perm _
+
+/-! ## … and the independent result of ANY operands: the `n × n` grid is `n` shifted couplings -/
+
+theorem cornerRow_eq_ofFn (f : Rat → Rat → Rat → Rat → Rat) (op : Rat → Rat → Rat) (a b : Rat) (yl yr : List Rat)
+    (N : Nat) (hyl : yl.length = N) (hyr : yr.length = N) :
+    cornerRow f op a b yl yr = List.ofFn (fun j : Fin N =>
+      f (op a (yl[j.val]'(by omega))) (op a (yr[j.val]'(by omega))) (op b (yl[j.val]'(by omega))) (op b (yr[j.val]'(by omega)))) := by
+  have len : (cornerRow f op a b yl yr).length = N := by
+    unfold cornerRow; apply zip4_length <;> simp [hyl, hyr]
+  apply List.ext_getElem
+  · rw [len, List.length_ofFn]
+  · intro k h1 h2
+    rw [len] at h1
+    have := cornerRow_getElem? f op a b yl yr k (by omega) (by omega)
+    rw [List.getElem?_eq_getElem (by rw [len]; exact h1)] at this
+    rw [Option.some.inj this]
+    simp
+
+/-- the number of grid entries hit by a predicate, row by row -/
+theorem countP_cornerGrid_eq_sum (f : Rat → Rat → Rat → Rat → Rat) (op : Rat → Rat → Rat) (P : Rat → Prop)
+    [DecidablePred P] (yl yr : List Rat) (N : Nat) (hyl : yl.length = N) (hyr : yr.length = N) :
+    ∀ (k : Nat) (xl xr : List Rat) (hxl : xl.length = k) (hxr : xr.length = k),
+      (cornerGrid f op xl xr yl yr).countP (fun v => decide (P v)) =
+        ∑ i : Fin k, (univ.filter (fun j : Fin N =>
+          P (f (op (xl[i.val]'(by omega)) (yl[j.val]'(by omega))) (op (xl[i.val]'(by omega)) (yr[j.val]'(by omega)))
+               (op (xr[i.val]'(by omega)) (yl[j.val]'(by omega))) (op (xr[i.val]'(by omega)) (yr[j.val]'(by omega)))))).card := by
+  intro k
+  induction k with
+  | zero =>
+    intro xl xr hxl hxr
+    have e1 := List.eq_nil_of_length_eq_zero hxl
+    have e2 := List.eq_nil_of_length_eq_zero hxr
+    subst e1 e2
+    simp [cornerGrid, cartesian, zip4]
+  | succ k ih =>
+    intro xl xr hxl hxr
+    cases xl with
+    | nil => simp at hxl
+    | cons a ta =>
+    cases xr with
+    | nil => simp at hxr
+    | cons b tb =>
+      rw [cornerGrid_cons f op a b ta tb yl yr (by rw [hyl, hyr]), List.countP_append, Fin.sum_univ_succ,
+        ih ta tb (by simpa using hxl) (by simpa using hxr), cornerRow_eq_ofFn f op a b yl yr N hyl hyr, countP_ofFn]
+      simp only [Fin.val_zero, List.getElem_cons_zero, Fin.val_succ, List.getElem_cons_succ]
+      rfl
+
+/-- double counting over the cyclic shifts `i ↦ i + s` -/
+theorem sum_card_rows_le_shifts {n : Nat} [NeZero n] (Q : Fin n → Fin n → Prop) [∀ i j, Decidable (Q i j)] (c : Nat)
+    (h : ∀ s : Fin n, (univ.filter (fun i : Fin n => Q i (i + s))).card ≤ c) :
+    ∑ i : Fin n, (univ.filter (fun j : Fin n => Q i j)).card ≤ n * c := by
+  have e : ∀ i : Fin n, (univ.filter (fun j : Fin n => Q i j)).card =
+      (univ.filter (fun s : Fin n => Q i (i + s))).card := fun i => by
+    have := card_filter_perm (Equiv.addLeft i) (fun j => Q i j)
+    simp only [Equiv.coe_addLeft] at this
+    exact this.symm
+  calc ∑ i : Fin n, (univ.filter (fun j : Fin n => Q i j)).card
+      = ∑ i : Fin n, (univ.filter (fun s : Fin n => Q i (i + s))).card := Finset.sum_congr rfl (fun i _ => e i)
+    _ = ∑ i : Fin n, ∑ s : Fin n, (if Q i (i + s) then 1 else 0) := by simp_rw [Finset.card_filter]
+    _ = ∑ s : Fin n, ∑ i : Fin n, (if Q i (i + s) then 1 else 0) := Finset.sum_comm
+    _ = ∑ s : Fin n, (univ.filter (fun i : Fin n => Q i (i + s))).card := by simp_rw [Finset.card_filter]
+    _ ≤ ∑ _s : Fin n, c := Finset.sum_le_sum (fun s _ => h s)
+    _ = n * c := by simp
+
+/-- **every box that is valid for `op X Y` under all couplings encloses the independent result** (sorted
+corner minima / maxima of all `n²` step pairs, condensed by the constructor) — for ALL operands: the grid
+is the union of the `n` shifted couplings, each of which contributes at most `k` values below `F.left[k]` -/
+theorem independent_enclosed (op : Rat → Rat → Rat) (n : Nat) (X Y F : PB) (hX : WF n X) (hY : WF n Y)
+    (hlen : F.left.length = n ∧ F.right.length = n) (v : AllValid n op X Y F hX.toWFS hY.toWFS) :
+    ∃ D, mk n false (independentOp op X Y).1 (independentOp op X Y).2 = .ok D ∧ Encloses F D := by
+  have hxl := hX.llen; have hxr := hX.rlen; have hyl := hY.llen; have hyr := hY.rlen
+  have eI : independentOp op X Y = (sortR (cornerGrid min4 op X.left X.right Y.left Y.right),
+      sortR (cornerGrid max4 op X.left X.right Y.left Y.right)) := rfl
+  rw [eI]
+  set GL := cornerGrid min4 op X.left X.right Y.left Y.right with hGL
+  set GR := cornerGrid max4 op X.left X.right Y.left Y.right with hGR
+  have lGL : (sortR GL).length = n * n := by rw [sortR_length]; exact cornerGrid_length _ _ _ _ _ _ n hxl hxr hyl hyr
+  have lGR : (sortR GR).length = n * n := by rw [sortR_length]; exact cornerGrid_length _ _ _ _ _ _ n hxl hxr hyl hyr
+  obtain ⟨D, hD, wD, hidx⟩ := mk_indep_ok n _ _ lGL lGR (sortR_sorted _) (sortR_sorted _)
+    (sortR_forall₂ _ _ (zip4_min_le_max _ _ _ _))
+  refine ⟨D, hD, ?_⟩
+  intro k l r dl dr hl hr hdl hdr
+  have hk : k < n := by
+    have := (List.getElem?_eq_some_iff.mp hl).1
+    rw [hlen.1] at this; exact this
+  have : NeZero n := ⟨by omega⟩
+  obtain ⟨idx, hlt, b1, b2, eL, eR⟩ := hidx k hk
+  rw [eL, List.getElem?_eq_getElem (by rw [lGL]; exact hlt)] at hdl
+  rw [eR, List.getElem?_eq_getElem (by rw [lGR]; exact hlt)] at hdr
+  rw [← Option.some.inj hdl, ← Option.some.inj hdr]
+  have cnt := fun s : Fin n => corner_counts op n X Y F hX hY v (Equiv.addRight s) ⟨k, hk⟩ l r hl hr
+  constructor
+  · by_contra hcon
+    rw [not_le] at hcon
+    have c1 : idx < (sortR GL).countP (fun x => decide (x ≤ (sortR GL)[idx])) :=
+      (sorted_getElem_le_iff _ (sortR_sorted _) _ idx (by rw [lGL]; exact hlt)).mp (le_refl _)
+    rw [(sortR_perm _).countP_eq] at c1
+    have c2 : GL.countP (fun x => decide (x ≤ (sortR GL)[idx])) ≤ GL.countP (fun x => decide (x < l)) := by
+      apply List.countP_mono_left
+      intro x _ hx
+      simp only [decide_eq_true_eq] at hx ⊢
+      exact lt_of_le_of_lt hx hcon
+    rw [countP_cornerGrid_eq_sum min4 op (fun x => x < l) Y.left Y.right n hyl hyr n X.left X.right hxl hxr] at c2
+    have c3 := sum_card_rows_le_shifts (fun i j : Fin n =>
+      min4 (op (X.left[i.val]'(by omega)) (Y.left[j.val]'(by omega))) (op (X.left[i.val]'(by omega)) (Y.right[j.val]'(by omega)))
+        (op (X.right[i.val]'(by omega)) (Y.left[j.val]'(by omega))) (op (X.right[i.val]'(by omega)) (Y.right[j.val]'(by omega))) < l) k
+      (fun s => by
+        have := (cnt s).1
+        simp only [cminF, Equiv.coe_addRight] at this
+        exact this)
+    omega
+  · rw [sorted_getElem_le_iff _ (sortR_sorted _) r idx (by rw [lGR]; exact hlt), (sortR_perm _).countP_eq]
+    have tot := List.length_eq_countP_add_countP (fun x => decide (x ≤ r)) (l := GR)
+    rw [cornerGrid_length _ _ _ _ _ _ n hxl hxr hyl hyr] at tot
+    have c2 : GR.countP (fun a => decide ¬(decide (a ≤ r)) = true) = GR.countP (fun z => decide (r < z)) := by
+      congr 1
+      funext a
+      simp
+    rw [c2, countP_cornerGrid_eq_sum max4 op (fun x => r < x) Y.left Y.right n hyl hyr n X.left X.right hxl hxr] at tot
+    have c3 := sum_card_rows_le_shifts (fun i j : Fin n =>
+      r < max4 (op (X.left[i.val]'(by omega)) (Y.left[j.val]'(by omega))) (op (X.left[i.val]'(by omega)) (Y.right[j.val]'(by omega)))
+        (op (X.right[i.val]'(by omega)) (Y.left[j.val]'(by omega))) (op (X.right[i.val]'(by omega)) (Y.right[j.val]'(by omega)))) (n - 1 - k)
+      (fun s => by
+        have := (cnt s).2
+        simp only [cmaxF, Equiv.coe_addRight] at this
+        exact this)
+    have e : n * n = n * (n - 1 - k) + n * k + n := by
+      have : n = (n - 1 - k) + k + 1 := by omega
+      calc n * n = n * ((n - 1 - k) + k + 1) := by rw [← this]
+        _ = n * (n - 1 - k) + n * k + n := by ring
+    omega
 
 end Pun.PBox
